@@ -228,6 +228,36 @@ pub fn c10_packed_deltas_write_read() {
     kani::cover!(n == 4 && vals[0] == 0 && vals[1] > 40000, "zero run then long");
 }
 
+// @tier thorough
+// @timeout 1500
+// @mem 24
+#[cfg_attr(kani, kani::proof)]
+#[cfg_attr(kani, kani::stub(std::hash::RandomState::new, verif_random_state))]
+#[cfg_attr(kani, kani::unwind(40))]
+pub fn c04_hhea_write_read_minimal() {
+    use crate::tables::hhea::Hhea;
+    let t = Hhea {
+        ascender: FWord::new(kani::any()),
+        descender: FWord::new(kani::any()),
+        line_gap: FWord::new(kani::any()),
+        advance_width_max: UfWord::new(kani::any()),
+        min_left_side_bearing: FWord::new(kani::any()),
+        min_right_side_bearing: FWord::new(kani::any()),
+        x_max_extent: FWord::new(kani::any()),
+        caret_slope_rise: kani::any(),
+        caret_slope_run: kani::any(),
+        caret_offset: kani::any(),
+        number_of_h_metrics: kani::any(),
+    };
+    let bytes = verif_write_bytes(&t);
+    assert!(bytes.len() == 36);
+    let r = read_fonts::tables::hhea::Hhea::read(FontData::new(&bytes)).expect("reads back");
+    assert!(r.ascender() == t.ascender && r.descender() == t.descender && r.line_gap() == t.line_gap);
+    assert!(r.number_of_h_metrics() == t.number_of_h_metrics && r.caret_offset() == t.caret_offset);
+    core::mem::forget(bytes);
+    kani::cover!(true, "reached");
+}
+
 #[cfg(all(test, not(kani)))]
 include!("write_hook_dispatch.rs");
 
